@@ -24,7 +24,7 @@ fn expect_completed(out: &DecapOut, pdu: &[u8], pt: u16, l: Lbl, n: usize) -> Op
             if meta.pdu_len != pdu.len() || buf.len() < pdu.len() || &buf[..pdu.len()] != pdu {
                 return Some(format!("delivered PDU differs: {}", out.brief()));
             }
-            if meta.pt != pt || meta.label != l {
+            if meta.pt != pt || meta.label != l || !meta.exts.is_empty() {
                 return Some(format!("delivered metadata differ: {}", out.brief()));
             }
             None
@@ -35,8 +35,8 @@ fn expect_completed(out: &DecapOut, pdu: &[u8], pt: u16, l: Lbl, n: usize) -> Op
 
 pub fn run(tier: Tier) -> i32 {
     let rep = Report::new("C16", tier);
-    rep.set_rule("receiver states: closure of the 1-slot receiver system and the 2-slot system to depth 5 (thorough: closure) over provision / new_pdu / reset / decap(40-packet alphabet incl. every rejection reason, malformed and truncated buffers, unfinished trains); in EVERY state the recovery probe runs on restored copies: reset_last_label, provision one buffer (Ok or StorageOverflow accepted), then (i) a valid complete packet with a 6-byte resp. 3-byte label, (ii) a valid 3-fragment PDU on each fragment id in {0, 1, slots (aliasing), 255} with both label kinds; distinct = probe outcome classes");
-    rep.assume("histories are drawn from the 40-packet alphabet (structured, not random bytes); C05 covers arbitrary bytes for totality");
+    rep.set_rule("receiver states: closure of the 1-slot receiver system and the 2-slot system to depth 5 (thorough: closure) over provision / new_pdu / reset / decap(43-packet alphabet incl. every rejection reason, malformed and truncated buffers, unfinished trains); in EVERY state the recovery probe runs on restored copies: reset_last_label, provision one buffer (Ok or StorageOverflow accepted), then (i) a valid complete packet with a 6-byte resp. 3-byte label, (ii) a valid 3-fragment PDU on each fragment id in {0, 1, slots (aliasing), 255} with both label kinds; distinct = probe outcome classes");
+    rep.assume("histories are drawn from the 43-packet alphabet (structured, not random bytes); C05 covers arbitrary bytes for totality");
     let mgr = mgr_std();
     for slots in [1usize, 2] {
         let buffers: Vec<usize> = (0..slots + 3).map(|i| 4 + i).collect();
@@ -132,6 +132,6 @@ pub fn run(tier: Tier) -> i32 {
     for slots in [1usize, 2] {
         crate::live::live_pass(&rep, "C16", crate::live::Oracle::Recovery, slots, if tier.thorough() { 6 } else { 5 });
     }
-    rep.assume("the snapshot-based closure merges states by the snapshot of all fields the hooks expose; state outside it is covered only by the live pass (all histories up to depth 5, thorough 6, over a 15-op alphabet)");
+    rep.assume("the snapshot-based closure merges states by the snapshot of all fields the hooks expose; state outside it is covered only by the live pass (all histories up to depth 5, thorough 6, over an 18-op alphabet)");
     rep.finish(true)
 }
